@@ -409,6 +409,8 @@ fn classify(init: u8, hist: &[EOp], msg: &str) -> String {
 
 pub fn run_job(job: &Job) -> JobResult {
     let ej: EncJob = serde_json::from_value(job.spec.clone()).expect("enc job");
+    // starts under another key read garbage and log it: format it all
+    crate::node::install_verbose_logging();
     let mut res = JobResult::default();
     let scratch = Scratch::new("C19-job");
     let cfg = NodeCfg { threshold: ej.threshold, cache: ej.cache, encryption: ej.init_enc, tick: 1, ..Default::default() };
